@@ -72,7 +72,8 @@ def main() -> int:
         res["checks"] = {}
         for p in props:
             for s in a.seeds.split(","):
-                e = dict(os.environ, LW_REPO=str(wt), VERIF_SEED=s)
+                e = dict(os.environ, LW_REPO=str(wt), VERIF_SEED=s, VERIF_EVIDENCE_DIR=str(wt) + "/.verif_out/evidence",
+                         VERIF_REPLAY_DIR=str(d / "replays"))
                 t0 = time.time()
                 rc, out = sh([str(VERIF / "check"), p, a.tier], cwd=VERIF, env=e, timeout=3600)
                 lines = [l for l in out.splitlines() if l.startswith(("VIOLATION", "KNOWN-FINDING", "MACHINERY", "[" + p))]
@@ -83,8 +84,6 @@ def main() -> int:
                 print("   ", first.strip()[:200])
         res["detected"] = any(v["rc"] == 1 for v in res["checks"].values())
     finally:
-        # restore evidence files written while pointing at the mutated tree
-        sh(["git", "checkout", "--", "evidence"], cwd=VERIF)
         if not a.keep:
             sh(["git", "-C", "/repo", "worktree", "remove", "--force", str(wt)])
     (d / "result.json").write_text(json.dumps(res, indent=1) + "\n")
